@@ -118,7 +118,8 @@ NOT_COVERED = [
     "conditioning near e->0, i->0, e->1 (excluded by the quantifier); rounding",
     "an Infos helper KEPT by the caller (`inf = sv.infos`) across an in-place change of sv: the helper memoises its keplerian / spherical views (modelled: Handle) while reading mu live; the property is checked for values read through `sv.infos` after the change, not through a helper obtained before it",
     "views sharing the buffer (`sv[:]`, `sv.view()`), whose form label can diverge from the shared six numbers; writes of names that are no orbital element (stored in _data)",
-    "frame changes whose transform raises (unlinked centres, Hill frame): only the normal path of try/finally is modelled",
+    "frame changes whose transform raises (unlinked centres, Hill frame): only the normal path of try/finally is modelled (oracle: the object is unchanged after such a change)",
+    "objects carrying a covariance: the tail of the frame setter (`if self.cov is not None and self.cov.frame == old_frame`, incl. the restore of coordinates and frame when the covariance cannot follow) is unreachable in the machine, whose objects have no covariance; the extractor checks the guard and the known tail shapes and refuses others",
 ]
 OPEN = [
     "surjectivity of keplerian->cartesian onto the non-degenerate cartesian states (would turn cart_kepl_cart_of_image into the unconditional statement)",
@@ -1513,11 +1514,23 @@ def sv_tables(svtree, formstree, framestree):
     fn = _find_prop(svtree, "StateVector", "frame", "setter")
     body = _nodoc(fn.body)
     arg = fn.args.args[1].arg
-    head = f"old_form = self.form\nold_frame = self.frame\nif isinstance({arg}, str):\n    {arg} = get_frame({arg})\n"
-    tail = f"if self.cov is not None and self.cov.frame == old_frame:\n    self.cov.frame = {arg}\n"
-    if not (len(body) == 5 and _same(body[:3], head) and _same(body[4:], tail) and isinstance(body[3], ast.If) and not body[3].orelse
-            and ast.unparse(body[3].test) == f"{arg} != self.frame"):
+    # skeleton: locals (old_form, old_frame, optionally the coordinates on entry), the guarded block whose effects are read below,
+    # and the covariance tail.  The tail only runs when `self.cov is not None`: the machine of SVMachine.tpl is an object WITHOUT
+    # covariance (its state has no such field, the histories never attach one), so the tail — including the branch that puts
+    # coordinates and frame back when the covariance cannot follow — is unreachable there and is not modelled; its guard and
+    # the statements of its known shapes are checked so that an unknown tail is refused.
+    heads = [f"old_form = self.form\nold_frame = self.frame\nif isinstance({arg}, str):\n    {arg} = get_frame({arg})\n",
+             f"old_form = self.form\nold_frame = self.frame\nif isinstance({arg}, str):\n    {arg} = get_frame({arg})\nold_coord = np.array(self)\n"]
+    tails = [f"if self.cov is not None and self.cov.frame == old_frame:\n    self.cov.frame = {arg}\n",
+             f"if self.cov is not None and self.cov.frame == old_frame:\n    try:\n        self.cov.frame = {arg}\n    except Exception:\n"
+             f"        self.view(np.ndarray)[:] = old_coord\n        self._data['frame'] = old_frame\n        raise\n"]
+    k = next((n for n, st in enumerate(body) if isinstance(st, ast.If) and ast.unparse(st.test) == f"{arg} != self.frame"), None)
+    if not (k is not None and len(body) == k + 2 and not body[k].orelse and any(_same(body[:k], h) for h in heads)
+            and any(_same(body[k + 1:], t) for t in tails)):
         raise py2lean.Untranslatable("frame setter: unexpected skeleton")
+    if _same(body[k + 1:], tails[1]) and not _same(body[:k], heads[1]):
+        raise py2lean.Untranslatable("frame setter: the tail restores coordinates that were not saved on entry")
+    body = body[:3] + [body[k]]
     frame_steps = []
     pending = None
     for s in _flatten(body[3].body):
